@@ -1,0 +1,33 @@
+//go:build verif
+
+package gate
+
+import (
+	"context"
+	"time"
+
+	"go.minekube.com/gate/pkg/internal/reload"
+)
+
+// Verification hook for property C38 (add-only, no logic): forwards the internal reload
+// package's verif export so that a harness outside this module can drive the watch loop.
+
+// VerifReloadEventWatcher is reload's event watcher interface.
+type VerifReloadEventWatcher = reload.VerifEventWatcher
+
+const (
+	VerifReloadDebounce          = reload.VerifDebounceDuration
+	VerifReloadReconcileInterval = reload.VerifReconciliationInterval
+)
+
+// VerifReloadWatch forwards to reload.VerifWatchWithOptions.
+func VerifReloadWatch(
+	ctx context.Context,
+	path string,
+	cb func() error,
+	reconcileInterval time.Duration,
+	newWatcher func(string) (VerifReloadEventWatcher, error),
+	attached func(),
+) error {
+	return reload.VerifWatchWithOptions(ctx, path, cb, reconcileInterval, newWatcher, attached)
+}
